@@ -1,6 +1,31 @@
 # per-property claim texts used by mk_manifest.py
 NA = {}
 CLAIMS = {
+ 'C11': {
+  'technique': 'Coq invariant proof by induction over operation sequences on optimizer transitions regenerated from the sources; exhaustive one-hot op-sequence correspondence',
+  'text': ('no_double_release is a theorem for EVERY finite program over {forward+backward, step, optimizer/module zero_grad, skip signals, scheduler writes}, '
+           'every optimizer variant (flat, per-layer, adaptive loop, ghost), accumulation allowed or forbidden: the (backward, sample) pairs over all releases to the '
+           'inner optimizer are duplicate free and every released contribution is clipped; misuse sequences raise (stepping twice, ghost re-step, second backward under '
+           'Poisson). The transitions are regenerated from optimizer.py & co. on every run (Tie A) and proved equal to a reference semantics; the whole state machine is '
+           'additionally executed in Coq against the real optimizers on exhaustive op sequences (depth 4 quick / 6 thorough, 3 variants x accumulation flag) with a '
+           'one-hot probe that decodes released sample ids exactly. Partial: parameters are abstracted to one symbolic parameter (lock-step).'),
+ },
+ 'C05': {
+  'technique': 'Coq trace/ledger invariant over operation sequences on generated optimizer + accountant code; op-sequence and engine-level correspondence',
+  'text': ('accounting_exact: for every program and variant with the rdp/prv accountant, the expanded accountant history equals the list of accountant records in the '
+           'trace, each record immediately precedes its inner-optimizer step, skipped or raising steps write neither, #inner steps = #recorded steps; one step appends '
+           'exactly (sigma in force, sample_rate x accumulated iterations). Run-length encoding soundness and the GDP single-run behaviour are theorems about the '
+           'generated <Accountant>.step. Validated by exhaustive/random op sequences on the real optimizers+accountants and by engine-level histories '
+           '(make_private, Poisson loader, BatchMemoryManager, schedulers, ghost, two make_private calls).'),
+ },
+ 'C04': {
+  'technique': 'Coq proof of the noise ledger (draw count, std, fresh stream positions, rank) on generated code; distribution of torch.normal assumed',
+  'text': ('PARTIAL. Proved for the generated add_noise/_generate_noise: exactly one parameter-shaped draw per noised step (one discarded + four in secure mode, '
+           'none when std == 0), std = noise_multiplier x max_grad_norm read at that step, consecutive never-reused stream positions over any program, none on skipped '
+           'physical steps, rank 0 only in the distributed optimizers, secure-mode variance arithmetic 4(std/2)^2 = std^2. The call log of torch.normal on the real '
+           'optimizers is compared with the ledger; numeric one-step checks cover shape, (clipped sum + noise)/B, reproducibility from a user generator. The Gaussian '
+           'law and independence of torch.normal draws are an assumption (modelled, not verified).'),
+ },
  'C17': {
   'technique': 'Coq proof by induction over scheduler steps on Gallina regenerated from the scheduler sources; bit-exact PrimFloat correspondence run',
   'text': ('Closed forms (construction is a no-op; after k steps init*gamma^k, init*gamma^floor(k/step), init*f(k)) and exact restore from '
